@@ -1,6 +1,7 @@
 import Deb822Verif.Driver.Proto
 import Deb822Verif.Model.DebParse
 import Deb822Verif.Model.DebAccess
+import Deb822Verif.Model.DebLossy
 import Deb822Verif.Spec.DocGrammar
 import Deb822Verif.Spec.DocSDec
 namespace Deb822Verif.Driver.Deb
@@ -111,8 +112,74 @@ def specVerdict (ls : List Spec.Line) (fnl : Bool) : String :=
       if d.str == Spec.render ls fnl && d.content == Spec.content ls then "wf=1" else "wf=SPEC-MISMATCH"
     else "wf=0"
 
+def lossyErrName : Lossy.Err → String
+  | .UnexpectedToken => "UnexpectedToken"
+  | .UnexpectedEof => "UnexpectedEof"
+  | .ExpectedEof => "ExpectedEof"
+  | .Unreachable => "PANIC"
+
+def showLossy : Except Lossy.Err Lossy.Doc → String
+  | .ok d => s!"ok {encDoc d}"
+  | .error e => s!"err:{lossyErrName e}"
+
+def decField (f : String) : Option (Str × Str) :=
+  match f.splitOn ":" with
+  | [k, v] => do pure (← decStr k, ← decStr v)
+  | _ => none
+
+def decPara (f : String) : Option (List (Str × Str)) :=
+  if f.isEmpty then some [] else (f.splitOn ",").mapM decField
+
+/-- documents: paragraphs joined by ';' ; "-" is the document without paragraphs -/
+def decDoc (f : String) : Option (List (List (Str × Str))) :=
+  if f == "-" then some [] else (f.splitOn ";").mapM decPara
+
+def strictContent (s : Str) : String :=
+  match readStrict s with
+  | .error _ => "err"
+  | .ok t => s!"ok {encDoc (docItems t)}"
+
+/-- one step of a lossy-paragraph edit history -/
+def lossyStep (p : Lossy.Para) (op : String) : Option (Lossy.Para × String) :=
+  match op.splitOn "." with
+  | ["g", k] => do let k ← decStr k; pure (p, encOpt (Lossy.pget p k))
+  | ["s", k, v] => do let k ← decStr k; let v ← decStr v; pure (Lossy.pset p k v, "-")
+  | ["i", k, v] => do let k ← decStr k; let v ← decStr v; pure (Lossy.pinsert p k v, "-")
+  | ["r", k] => do let k ← decStr k; pure (Lossy.premove p k, "-")
+  | _ => none
+
+def lossyHist (p : Lossy.Para) : List String → Option (List String)
+  | [] => some []
+  | op :: ops => do
+    let (p', out) ← lossyStep p op
+    let rest ← lossyHist p' ops
+    pure (s!"{out}={encItems p'}/{p'.length}" :: rest)
+
 def handle (op : String) (args : List String) : Option String :=
   match op, args with
+  | "deb.lossy", [t] => do
+    let s ← decStr t
+    pure (showLossy (Lossy.read s))
+  | "deb.lossypara", [t] => do
+    let s ← decStr t
+    pure (match Lossy.readPara s with
+      | .ok p => s!"ok {encItems p}"
+      | .error e => s!"err:{lossyErrName e}")
+  | "deb.both", [t] => do
+    let s ← decStr t
+    pure s!"L:{showLossy (Lossy.read s)} S:{strictContent s}"
+  | "deb.docl", [ls, fnl] => do
+    let ls ← decLines ls
+    let text := Spec.render ls (fnl == "1")
+    pure s!"{encStr text} L:{showLossy (Lossy.read text)} S:{strictContent text}"
+  | "deb.lprint", [d] => do
+    let d ← decDoc d
+    let text := Lossy.printDoc d
+    pure s!"{encStr text} L:{showLossy (Lossy.read text)} S:{strictContent text}"
+  | "deb.lhist", [p, ops] => do
+    let p ← decPara p
+    let outs ← lossyHist p (if ops.isEmpty then [] else ops.splitOn ",")
+    pure (" ".intercalate outs)
   | "deb.doc", [ls, fnl] => do
     let ls ← decLines ls
     let text := Spec.render ls (fnl == "1")
